@@ -169,6 +169,20 @@ class C13(CurveCheck):
             cs.append(Case("pkop sub %s %s" % (hx(p1), hx(p2)), "pkop:sub"))
             cs.append(Case("pkop mul %s %s" % (hx(le(a)), hx(p1)), "pkop:mul"))
             cs.append(Case("pkop frompriv %s" % hx(le(a)), "pkop:frompriv"))
+        # structured scalars (a small low limb under non-zero high limbs, zero middle limbs, single high bits) and points whose
+        # y is next to the field prime / next to zero: shortcuts that look at part of an operand
+        XY = ed.extreme_y_points()
+        SS = ed.structured_scalars(rng)
+        for k, a in enumerate(SS if not q else SS[::2]):
+            p1 = XY[k % len(XY)] if k % 4 == 0 else ed.compress(rp())
+            cs.append(Case("pkop mul %s %s" % (hx(le(a)), hx(p1)), "pkop:mul-structured-scalar"))
+            cs.append(Case("pkop frompriv %s" % hx(le(a)), "pkop:frompriv-structured-scalar"))
+            cs.append(Case("skop mul %s %s" % (hx(le(a)), hx(le(SS[(5 * k + 1) % len(SS)]))), "skop:structured-scalar"))
+            cs.append(Case("skop add %s %s" % (hx(le(a)), hx(le(SS[(3 * k + 2) % len(SS)]))), "skop:structured-scalar"))
+        for k, p1 in enumerate(XY):
+            cs.append(Case("pkop add %s %s" % (hx(p1), hx(XY[(k + 3) % len(XY)])), "pkop:extreme-y"))
+            cs.append(Case("pkop sub %s %s" % (hx(p1), hx(ed.compress(rp()))), "pkop:extreme-y"))
+            cs.append(Case("pkop mul %s %s" % (hx(le(rs())), hx(p1)), "pkop:extreme-y"))
         # From<KeyPair> / From<&KeyPair> for ViewPair: the view key is kept, spend = from_private_key(spend)
         cs.append(Case("viewpair 77916d0cd56ed1920aef6ca56d8a41bac915b68e4c46a589e0956e27a7b77404 "
                        "8163466f1883598e6dd14027b8da727057165da91485834314f5500a65846f09", "viewpair"))
